@@ -363,6 +363,8 @@ func init() {
 }
 
 func runC01(c *rt.Ctx) {
+	configuredEpisode() // the process has a past: failing configured Formatters and Parsers, since restored
+	c.Extra("history_before_the_streams", "an episode of failing configured Formatter/Parser variables in all five packages")
 	c.SetRule("every calendar date of years 0000-9999 is enumerated once (exhaustive) through formatter/MarshalText/String -> three parser paths for both layouts; " +
 		"the slow paths (fmt verbs, JSON, XML in and out, prefix buffer) run on every month end, leap day, first of month and a stride of the rest in quick, on every date in thorough; " +
 		"5-9 digit years are enumerated from a boundary grid plus seeded years under MaxInputLength in {0,11..15}. " +
